@@ -222,7 +222,8 @@ def check(ctx):
         ctx.record(["relatives", "fan-%d" % W, desc, cutoff, keep, starts], True, ["wide-level", "desc" if desc else "anc"])
         for sig, detail in fails: ctx.fail(sig, dict(kind="fan", width=W, desc=desc, cutoff=cutoff, keep=keep, starts=starts), detail[:300])
     ans = vlib.run_model(reqs, shards=8)
-    for (kind, p, feats), a in zip(meta, ans):
+    for jx, ((kind, p, feats), a) in enumerate(zip(meta, ans)):
+        vlib.pandas_mode(jx)
         mo = dec_rows(a) if kind.startswith("relatives") else dec_paths(a)
         out, nontriv, fails = judge(kind, p)
         ctx.record([kind, p], nontriv, feats + [kind])
